@@ -270,6 +270,8 @@ def run_check(prop, tier, root, workers=None, worlds=None, wall=None, world_list
     import matsim.ops  # noqa: F401
     import matsim.worlds  # noqa: F401
 
+    matsim.ops._pristine_module_state()  # captured before any MatID code has run
+
     ctx = mp.get_context("fork")
     counter = ctx.Value("i", 0)
     outq = ctx.Queue()
